@@ -48,6 +48,9 @@ const TEXTS: [&str; 4] = ["evt ", "x=", " and ", "é "];
 const OWN_TS: [u64; 5] = [0, 1, 999_999_999, 1_000_000_000, 1_700_000_000_123_456_789];
 const CLOCK_BASE: u64 = 4_000_000_000_000_000_000;
 
+/// keys that only ever occur in ambient properties, never among an event's own
+const AMB_KEYS: [&str; 2] = ["amb", "trace"];
+
 const N_FLEAVES: usize = 8;
 const N_RECS: usize = 4;
 const N_NENVS: usize = 3;
@@ -116,6 +119,15 @@ fn gen_event(g: &mut Rng) -> MEvent {
 }
 
 fn gen_fleaf(g: &mut Rng) -> FLeaf {
+    // leaves that decide on ambient-only properties, and stateful ones
+    match g.below(100) {
+        0..=7 => return FLeaf::HasKey(g.pick(&AMB_KEYS).to_string()),
+        8..=13 => return FLeaf::LacksKey(g.pick(&AMB_KEYS).to_string()),
+        14..=17 => return FLeaf::FirstEq(g.pick(&AMB_KEYS).to_string(), gen_val(g).text()),
+        18..=20 => return FLeaf::LacksKey(gen_key(g)),
+        21..=28 => return FLeaf::Budget(g.below(40)),
+        _ => {}
+    }
     match g.below(100) {
         0..=7 => FLeaf::Const(g.bool()),
         8..=32 => FLeaf::HasKey(gen_key(g)),
@@ -201,12 +213,23 @@ fn gen_e(g: &mut Rng, depth: u32) -> ETree {
 }
 
 fn gen_cx(g: &mut Rng) -> Cx {
-    Cx {
-        log: Arc::new(Log::default()),
-        fleaves: (0..N_FLEAVES).map(|_| gen_fleaf(g)).collect(),
-        flush_ok: (0..N_RECS).map(|_| !g.chance(1, 5)).collect(),
-        nenvs: (0..N_NENVS).map(|_| NEnv { ambient: gen_props(g, 2, false), clock: gen_clock(g) }).collect(),
+    Cx::new(
+        (0..N_FLEAVES).map(|_| gen_fleaf(g)).collect(),
+        (0..N_RECS).map(|_| !g.chance(1, 5)).collect(),
+        (0..N_NENVS).map(|_| NEnv { ambient: gen_ambient(g, 2, false), clock: gen_clock(g) }).collect(),
+    )
+}
+
+/// Ambient properties: keys shared with events' own plus, half of the time, ambient-only keys.
+fn gen_ambient(g: &mut Rng, max: usize, unique: bool) -> MProps {
+    let mut props = gen_props(g, max, unique);
+    for k in AMB_KEYS {
+        if g.chance(2, 5) {
+            let at = g.usize(props.len() + 1);
+            props.insert(at, (k.to_string(), gen_val(g)));
+        }
     }
+    props
 }
 
 #[derive(Clone, Copy, Debug, PartialEq)]
@@ -260,34 +283,57 @@ fn compare_deliveries(got: &[(usize, Snap)], want: &[(usize, Snap)]) -> Option<(
             ws.len(),
             ws.iter().map(|s| s.json().to_string()).collect::<Vec<_>>()
         );
-        return Some((class, detail));
+        return Some((class, clip(detail)));
     }
     None
 }
 
-/// Every sighting logged by a filter leaf must be one the model allows (the event fully built for
-/// the position the leaf sits in) and answered per the leaf's predicate.
-fn check_sightings(log: &Log, cx: &Cx, allowed: &[(usize, Snap)]) -> Option<(String, String)> {
-    let seen = log.fseen.lock().unwrap();
-    for (idx, snap, answer) in seen.iter() {
-        if allowed.iter().any(|(i, s)| i == idx && s == snap) {
-            continue;
+fn clip(mut s: String) -> String {
+    if s.len() > 900 {
+        let mut n = 900;
+        while !s.is_char_boundary(n) {
+            n -= 1;
         }
-        let class = match allowed.iter().find(|(i, _)| i == idx) {
-            Some((_, want)) => snap.diff(want).to_string(),
-            None => "evaluated-though-unreachable".to_string(),
-        };
-        return Some((
-            class,
-            format!(
-                "filter leaf {} ({:?}) was shown {} (answered {}), allowed views: {:?}",
-                idx,
-                cx.fleaves[*idx],
-                snap.json(),
-                answer,
-                allowed.iter().filter(|(i, _)| i == idx).map(|(_, s)| s.json().to_string()).collect::<Vec<_>>()
-            ),
-        ));
+        s.truncate(n);
+        s.push_str(" …");
+    }
+    s
+}
+
+/// The evaluations logged by the filter leaves must be exactly those Rust's `&&` / `||` over the
+/// same trees make: per leaf the same number of `matches` calls (short circuit is part of the
+/// logical definition of `and_when` / `or_when`), each shown the event fully built for the position
+/// the leaf sits in, each answered per the leaf's predicate and state. `trees` are the filter trees
+/// in play (for naming the combinator that failed to short-circuit), `ev` the event they judge.
+/// Returns (signature class, detail).
+fn check_evaluations(log: &Log, cx: &Cx, want: &[(usize, Snap, bool)], trees: &[&FTree], ev: &MEvent) -> Option<(String, String)> {
+    let seen = log.fseen.lock().unwrap();
+    for idx in 0..cx.fleaves.len() {
+        let got_n = seen.iter().filter(|(i, _, _)| *i == idx).count();
+        let want_n = want.iter().filter(|(i, _, _)| *i == idx).count();
+        if got_n > want_n {
+            let class = match trees.iter().find_map(|t| t.decided_left_of(idx, cx, ev)) {
+                Some(k) => format!("short-circuit:{}", k),
+                None => "evaluated-too-often".to_string(),
+            };
+            return Some((class, format!("filter leaf {} ({:?}) was evaluated {} time(s), `&&`/`||` over the same tree evaluate it {} time(s)", idx, cx.fleaves[idx], got_n, want_n)));
+        }
+        if got_n < want_n {
+            return Some(("not-evaluated".to_string(), format!("filter leaf {} ({:?}) was evaluated {} time(s), `&&`/`||` over the same tree evaluate it {} time(s)", idx, cx.fleaves[idx], got_n, want_n)));
+        }
+    }
+    let mut g: Vec<&(usize, Snap, bool)> = seen.iter().collect();
+    let mut w: Vec<&(usize, Snap, bool)> = want.iter().collect();
+    g.sort();
+    w.sort();
+    for (a, b) in g.iter().zip(w.iter()) {
+        if a != b {
+            let class = if a.1 != b.1 { format!("saw:{}", a.1.diff(&b.1)) } else { "answer".to_string() };
+            return Some((
+                class,
+                clip(format!("filter leaf {} ({:?}) was shown {} and answered {}; it must be shown {} and answer {}", a.0, cx.fleaves[a.0], a.1.json(), a.2, b.1.json(), b.2)),
+            ));
+        }
     }
     None
 }
@@ -319,8 +365,8 @@ fn gen_case(seed: u64, index: u64) -> Case {
         _ => CtxtKind::Empty,
     };
     let ambient = match kind {
-        CtxtKind::Fixed => gen_props(&mut g, 4, false),
-        CtxtKind::ThreadLocal => gen_props(&mut g, 4, true),
+        CtxtKind::Fixed => gen_ambient(&mut g, 4, false),
+        CtxtKind::ThreadLocal => gen_ambient(&mut g, 4, true),
         CtxtKind::Empty => Vec::new(),
     };
     let max_depth = if small { 3 } else { 5 };
@@ -460,12 +506,12 @@ where
         // ---- the filter trees evaluated directly on the built event, through several views
         for (which, tree) in [("runtime-filter", Some(&case.f)), ("call-site-filter", case.w.as_ref())] {
             let Some(tree) = tree else { continue };
-            let mut exp = Expect::default();
-            let want = feval(tree, cx, &full, &mut exp);
             let real: &DynF = if which == "runtime-filter" { rt.filter() } else { w_real.as_ref().unwrap() };
             for view in ["box-dyn", "ref-dyn", "ref-dyn-plain", "erased-event"] {
                 r.eval();
                 log.clear();
+                let mut exp = Expect::default();
+                let want = feval(tree, cx, &full, &mut exp);
                 let got = catch(|| {
                     full.with_real(|evt| match view {
                         "box-dyn" => real.matches(evt),
@@ -481,20 +527,21 @@ where
                         &format!("evaluating the {} panicked: {}", which, m),
                         case.json("filter-direct", Some(ei)),
                     ),
-                    Ok(g) if g != want => {
-                        let culprit = min_failing_f(tree, cx, &full);
-                        r.violation(
-                            &format!("C01:filter-answer:{}:{}", view, culprit),
-                            &format!("{} answered {} on the built event, its logical definition says {} (smallest disagreeing subtree: {})", which, g, want, culprit),
-                            case.json("filter-direct", Some(ei)),
-                        )
-                    }
-                    Ok(_) => {
-                        if let Some((class, detail)) = check_sightings(&log, cx, &exp.allowed) {
-                            r.violation(&format!("C01:filter-saw:filter-direct:{}", class), &detail, case.json("filter-direct", Some(ei)));
+                    Ok(g) => {
+                        if let Some((class, detail)) = check_evaluations(&log, cx, &exp.evals, &[tree], &full) {
+                            r.violation(&format!("C01:filter:{}:filter-direct", class), &detail, case.json("filter-direct", Some(ei)));
+                        } else if g != want {
+                            cx.resync();
+                            let culprit = min_failing_f(tree, cx, &full);
+                            r.violation(
+                                &format!("C01:filter-answer:{}:{}", view, culprit),
+                                &format!("{} answered {} on the built event, its logical definition says {} (smallest disagreeing subtree: {})", which, g, want, culprit),
+                                case.json("filter-direct", Some(ei)),
+                            )
                         }
                     }
                 }
+                cx.resync();
             }
         }
 
@@ -535,6 +582,8 @@ where
             };
             let mut exp = Expect::default();
             let accepted;
+            let mut judged_event = handed.clone();
+            let mut judged_trees: Vec<&FTree> = Vec::new();
             if path == "direct" {
                 accepted = true;
                 deliver(&case.d, cx, &handed, &mut exp);
@@ -544,7 +593,17 @@ where
                     (Some(w), true) => w,
                     _ => &case.f,
                 };
+                // would the same filter, shown the event before the ambient props are attached, decide otherwise?
+                let without_ambient = feval_pure(eff, cx, &handed.built(&Vec::new(), *clock));
                 accepted = feval(eff, cx, &built, &mut exp);
+                if without_ambient != accepted {
+                    r.observe(
+                        &format!("decided-by-ambient-props:{}:{}", if uses_when && case.w.is_some() { "when" } else { "runtime-filter" }, if accepted { "accept" } else { "reject" }),
+                        1,
+                    );
+                }
+                judged_event = built.clone();
+                judged_trees.push(eff);
                 if accepted {
                     deliver(&case.d, cx, &built, &mut exp);
                     accepts += 1;
@@ -607,6 +666,7 @@ where
                 Ok(x) => x,
                 Err(m) => {
                     r.violation(&format!("C01:panic:{}", path), &format!("emitting through {} panicked: {}", path, m), case.json(path, Some(ei)));
+                    cx.resync();
                     continue;
                 }
             };
@@ -617,9 +677,15 @@ where
                 let why = if path == "direct" { "direct".to_string() } else { format!("effective-filter-{}", if accepted { "accepts" } else { "rejects" }) };
                 r.violation(&format!("C01:delivery:{}:{}:{}", path, why, class), &detail, case.json(path, Some(ei)));
             }
-            if let Some((class, detail)) = check_sightings(&log, cx, &exp.allowed) {
-                r.violation(&format!("C01:filter-saw:{}:{}", path, class), &detail, case.json(path, Some(ei)));
+            r.observe("short-circuit:and-right-side-skipped", exp.and_right_skipped);
+            r.observe("short-circuit:or-right-side-skipped", exp.or_right_skipped);
+            r.observe("stateful-leaf:evaluations", exp.stateful_evals);
+            r.observe("stateful-leaf:evaluations-after-budget-spent", exp.stateful_exhausted);
+            case.d.filter_trees(&mut judged_trees);
+            if let Some((class, detail)) = check_evaluations(&log, cx, &exp.evals, &judged_trees, &judged_event) {
+                r.violation(&format!("C01:filter:{}:{}", class, path), &detail, case.json(path, Some(ei)));
             }
+            cx.resync();
             if path == "direct" {
                 if ran.clock_reads != 0 {
                     r.violation("C01:bypass:direct-emit-read-the-clock", &format!("direct Emitter::emit read the runtime clock {} time(s)", ran.clock_reads), case.json(path, Some(ei)));
@@ -681,6 +747,7 @@ where
 /// Kind of the smallest subtree whose real answer differs from its logical definition.
 fn min_failing_f(t: &FTree, cx: &Cx, full: &MEvent) -> &'static str {
     for c in t.children() {
+        cx.resync();
         let want = feval(c, cx, full, &mut Expect::default());
         let real = build_f(c, cx);
         let got = catch(|| full.with_real(|evt| real.matches(evt)));
@@ -688,6 +755,7 @@ fn min_failing_f(t: &FTree, cx: &Cx, full: &MEvent) -> &'static str {
             return min_failing_f(c, cx, full);
         }
     }
+    cx.resync();
     t.kind()
 }
 
@@ -745,12 +813,12 @@ where
         let full = raw.built(&run.ambient, clock);
 
         // the filter on the built event
-        let mut exp = Expect::default();
-        let want = feval(&fm, cx, &full, &mut exp);
         for view in VIEWS {
             run.r.eval();
             run.r.observe("static:filter-evaluations", 1);
             log.clear();
+            let mut exp = Expect::default();
+            let want = feval(&fm, cx, &full, &mut exp);
             let got = catch(|| {
                 full.with_real(|evt| match view {
                     "generic" => F::matches(&f, evt),
@@ -761,23 +829,26 @@ where
                     _ => f_all.matches(evt),
                 })
             });
-            if got != Ok(want) {
+            if let Some((class, detail)) = check_evaluations(&log, cx, &exp.evals, &[&fm], &full) {
+                run.r.violation(&format!("C01:filter:{}:static-filter:{}", class, view), &format!("static shape {}: {}", run.name, detail), run.json("filter", view, Some(ei), &fm, &em, cx));
+            } else if got != Ok(want) {
                 run.r.violation(
                     &format!("C01:static-filter:{}:{}", view, fm.kind()),
                     &format!("static shape {}: filter answered {:?} through the {} view, its logical definition says {}", run.name, got, view, want),
                     run.json("filter", view, Some(ei), &fm, &em, cx),
                 );
-            } else if let Some((class, detail)) = check_sightings(&log, cx, &exp.allowed) {
-                run.r.violation(&format!("C01:filter-saw:static-filter:{}", class), &detail, run.json("filter", view, Some(ei), &fm, &em, cx));
             }
+            cx.resync();
         }
 
         // the destinations handed the built event directly
-        let mut exp = Expect::default();
-        deliver(&em, cx, &full, &mut exp);
+        let mut inner_trees: Vec<&FTree> = Vec::new();
+        em.filter_trees(&mut inner_trees);
         for view in VIEWS {
             run.r.eval();
             log.clear();
+            let mut exp = Expect::default();
+            deliver(&em, cx, &full, &mut exp);
             let got = catch(|| {
                 full.with_real(|evt| match view {
                     "generic" => E::emit(&e, evt),
@@ -796,22 +867,25 @@ where
                     run.r.observe("static:leaf-deliveries", d.len() as u64);
                     if let Some((class, detail)) = compare_deliveries(&d, &exp.deliveries) {
                         run.r.violation(&format!("C01:static-delivery:{}:{}:{}", view, em.kind(), class), &format!("static shape {}: {}", run.name, detail), run.json("emit", view, Some(ei), &fm, &em, cx));
-                    } else if let Some((class, detail)) = check_sightings(&log, cx, &exp.allowed) {
-                        run.r.violation(&format!("C01:filter-saw:static-emit:{}", class), &detail, run.json("emit", view, Some(ei), &fm, &em, cx));
+                    } else if let Some((class, detail)) = check_evaluations(&log, cx, &exp.evals, &inner_trees, &full) {
+                        run.r.violation(&format!("C01:filter:{}:static-emit:{}", class, view), &format!("static shape {}: {}", run.name, detail), run.json("emit", view, Some(ei), &fm, &em, cx));
                     }
                 }
             }
+            cx.resync();
         }
 
         // the whole pipeline: generic components, erased components, a generic Runtime
-        let mut exp = Expect::default();
-        let accepted = feval(&fm, cx, &full, &mut exp);
-        if accepted {
-            deliver(&em, cx, &full, &mut exp);
-        }
+        let mut all_trees: Vec<&FTree> = vec![&fm];
+        em.filter_trees(&mut all_trees);
         for view in ["generic-components", "erased-components", "generic-runtime", "every-node-erased"] {
             run.r.eval();
             log.clear();
+            let mut exp = Expect::default();
+            let accepted = feval(&fm, cx, &full, &mut exp);
+            if accepted {
+                deliver(&em, cx, &full, &mut exp);
+            }
             if accepted { accepts += 1 } else { rejects += 1 }
             let got = catch(|| {
                 raw.with_real(|evt| match view {
@@ -838,11 +912,12 @@ where
                             &format!("static shape {}: {}", run.name, detail),
                             run.json("pipeline", view, Some(ei), &fm, &em, cx),
                         );
-                    } else if let Some((class, detail)) = check_sightings(&log, cx, &exp.allowed) {
-                        run.r.violation(&format!("C01:filter-saw:static-pipeline:{}", class), &detail, run.json("pipeline", view, Some(ei), &fm, &em, cx));
+                    } else if let Some((class, detail)) = check_evaluations(&log, cx, &exp.evals, &all_trees, &full) {
+                        run.r.violation(&format!("C01:filter:{}:static-pipeline:{}", class, view), &format!("static shape {}: {}", run.name, detail), run.json("pipeline", view, Some(ei), &fm, &em, cx));
                     }
                 }
             }
+            cx.resync();
         }
     }
 
@@ -959,7 +1034,7 @@ static_shapes! { cx;
 fn static_case(r: &mut Report, seed: u64, index: u64) {
     let mut g = Rng::stream(seed, &[1, 2, index]);
     let cx = gen_cx(&mut g);
-    let ambient = gen_props(&mut g, 4, false);
+    let ambient = gen_ambient(&mut g, 4, false);
     let k = if cfg!(miri) { 2 } else { 5 };
     let events = (0..k).map(|_| (gen_event(&mut g), gen_clock(&mut g))).collect();
     let timeout = Duration::from_millis(g.below(10_000));
@@ -991,9 +1066,9 @@ fn main() {
     }
 
     let seed = args.seed;
-    let n_dyn = args.n(2_000, 150_000);
+    let n_dyn = args.n(30_000, 2_000_000);
     par_cases(&mut r, &args, n_dyn, |i, r| dyn_case(r, seed, i));
-    let n_static = args.n(STATIC_NAMES.len() as u64 * 40, STATIC_NAMES.len() as u64 * 4_000);
+    let n_static = args.n(STATIC_NAMES.len() as u64 * 400, STATIC_NAMES.len() as u64 * 25_000);
     par_cases(&mut r, &args, n_static, |i, r| static_case(r, seed, i));
     r.set("static_shapes", json!(STATIC_NAMES.len()));
 
